@@ -628,6 +628,13 @@ func realAdjustedTime(samples []string) string {
 	return "err:clock"
 }
 
+// tooHardToGrind: a target below powLimit/2^17 needs more than ~2^18 hashes on average; Exec grinds at most
+// 2^22 nonces, so harder headers are not generated (the answer would depend on luck).
+func tooHardToGrind(p *chaincfg.Params, bits uint32) bool {
+	t := blockchain.CompactToBig(bits)
+	return t.Sign() > 0 && t.Cmp(new(big.Int).Rsh(p.PowLimit, 17)) < 0
+}
+
 // regtest with the retarget rules of q switched on
 func phdrParams(q *chaincfg.Params) *chaincfg.Params {
 	p := chaincfg.RegressionNetParams
@@ -1311,6 +1318,9 @@ func generateHard(g *core.Gen) {
 				t = mtp + r.Pick(-1, 0, 1)
 			}
 			want, err := safeNext(tip, time.Unix(t, 0), c)
+			if err == nil && tooHardToGrind(p, want) {
+				break
+			}
 			b := want
 			if err != nil || r.Chance(1, 10) {
 				b = []uint32{want + 1, want - 1, p.PowLimitBits, bits[len(bits)-1], 0x207fffff + 1, 0, 0x20800001, 0x2100ffff}[r.Intn(8)]
@@ -1347,7 +1357,7 @@ func generateHard(g *core.Gen) {
 	}
 
 	// header TREES through ProcessBlockHeader: several branches with their own time stamps and bits
-	for i := 0; i < g.N(20, 400); i++ {
+	for i := 0; i < g.N(40, 600); i++ {
 		q := synthParams(r)
 		q.PoWNoRetargeting = false
 		if r.Bool() {
@@ -1385,6 +1395,9 @@ func generateHard(g *core.Gen) {
 				t = mtp + r.Pick(-1, 0, 1)
 			}
 			want, err := safeNext(tip, time.Unix(t, 0), c)
+			if err == nil && tooHardToGrind(p, want) {
+				break // the nonce search of Exec must stay cheap and certain
+			}
 			b := want
 			if err != nil || r.Chance(1, 12) {
 				b = []uint32{want + 1, p.PowLimitBits, par.bits[len(par.bits)-1], 0, 0x2100ffff}[r.Intn(5)]
